@@ -875,3 +875,10 @@ pub fn filter_block_answers(policy: Arc<dyn crate::FilterPolicy>, blocks: &[(usi
     }
     Some(out)
 }
+
+/// `find_shortest_separator` for internal keys, returning the raw encoded key (user key, 8-byte sequence, 1-byte operation).
+pub fn ikey_separator_raw(a: (&[u8], u64, bool), b: (&[u8], u64, bool)) -> Vec<u8> {
+    let ka = InternalKey::new(a.0.to_vec(), a.1, op(a.2));
+    let kb = InternalKey::new(b.0.to_vec(), b.1, op(b.2));
+    BinarySeparable::find_shortest_separator(&ka, &kb)
+}
